@@ -32,6 +32,7 @@ func runC07(c *Ctx) {
 		n := runErrDisc(c, p, p.Funcs(), errDiscOpts{Rule: "C07.errors", Class: cls, Exempt: isDoReceiverPacket})
 		c.R.Count("reader call sites["+cfg.Name+"]", n)
 		c.R.Floor("C07.errors", cfg.Name, n, 190)
+		ruleReadFull(c, p, "C07.readfull")
 	}
 	c.R.Assumptions = append(c.R.Assumptions,
 		"io.ReadFull / binary.ReadUvarint / bufio return an error on every short read (standard library contract)",
